@@ -3,6 +3,11 @@
 # kind: rapid (default) | exhaustive | plain
 # quick/thorough: checks = total rapid cases over all shards; shards = processes; timeout = seconds per shard
 PARTS = {
+    "C19": [
+        {"test": "TestVfC19Trace",
+         "quick": {"checks": 3000, "shards": 4, "timeout": 600},
+         "thorough": {"checks": 200000, "shards": 16, "timeout": 2400}},
+    ],
     "C18": [
         {"test": "TestVfC18Seq", "kind": "exhaustive",
          "quick": {"shards": 4, "timeout": 300, "params": {"maxlen": 7}},
@@ -84,6 +89,15 @@ PARTS = {
 LEVEL = {}  # default: exploration
 
 RULES = {
+    "C19": "direct-driven node under floodsub, randomsub and gossipsub with an in-memory tracer teed into the JSON and protobuf file tracers; "
+           "histories (<= 50 ops, <= 6 peers, outbound queues of 1-3 left undrained or 64 drained) of arrivals, departures, remote "
+           "subscribe/unsubscribe/GRAFT/PRUNE, subscribe/cancel, relay/relay-cancel, heartbeats, local and batch publishes, remote "
+           "messages (valid, duplicate, bad signature, rejected, ignored). After every step the trace is replayed as set operations and "
+           "compared with the node (joined topics with JOIN/LEAVE alternation, router peer set, every mesh, at most one DELIVER per "
+           "message and exactly one for each message a subscription received, one PUBLISH per local attempt); at the end the RPCs each "
+           "outbound queue accepted are compared as multisets of independently rendered metadata with the SEND_RPC events, and the JSON "
+           "and protobuf files are parsed back and compared event by event with the in-memory sequence. Non-trivial: the trace holds a "
+           "LEAVE or closed stream and a DROP_RPC or rejected message. Distinct = case JSON.",
     "C18": "(Seq) every enabled sequence up to the length bound over {join / leave of two peers, pull on handler A, create handler B, pull on "
            "handler B} on the handler's event log, exhaustively; (Node) rapid histories (up to 200 ops) on a direct-driven node under all "
            "three routers: remote subscribe / unsubscribe / disconnect / inbound-stream close on 2-5 peers interleaved with handler "
@@ -170,6 +184,7 @@ RULES = {
 }
 
 ASSUMPTIONS = {
+    "C19": ["refused pushes are not observable at the queue, so DROP_RPC events are only checked for not shadowing a SEND (a refused push that is also traced as sent is caught, a refused push traced as nothing is not)"],
     "C18": ["the exhaustive part drives the handler's log with the notifications the event loop produces (join only for a non-member, leave only for a member); the node part checks that the event loop really does so"],
     "C06": ["the node's message ID function is data-derived so that IDONTWANT can name a message before it exists",
             "peers GRAFT only for topics they have subscribed to and a message is judged against the recipients the snapshot taken in the same instant allows"],
@@ -196,6 +211,12 @@ ASSUMPTIONS = {
 HOOK_COMMITS = ["407c3ed", "8f1d1a5"]
 
 META = {
+    "C19": {
+        "text": "Stateful property-based testing with a trace-replay oracle (round trip trace -> rebuilt state, trace files -> events) under "
+                "all three routers; finds wrong, missing or doubled events at any traced call site and encoder field loss.",
+        "note": "Trusts the stub host, gogo protobuf JSON/binary decoding, synctest.",
+        "technique": "stateful property-based testing (rapid) with trace-replay / round-trip oracle",
+    },
     "C18": {
         "text": "Bounded-exhaustive enumeration on the event log (complete for the stated bound) plus stateful property-based testing of the "
                 "whole path with blocked and cancelled consumers; finds reordering, half-delivery, missing seeding, duplicate joins and lost wake-ups.",
